@@ -839,7 +839,9 @@ impl<'a> Ctx<'a> {
         self.scopes.push(Vec::new());
         // one function body in forty is LONG: 70-130 statements, each `let` opening a scope of its own and
         // most of them re-binding one of a handful of names (what is keyed or counted per function shows only there)
-        let long = self.long_budget > 0 && self.scopes.len() == 2 && self.r.chance(1, 40);
+        // (only where the engine asks for it - C05 - : an identifier census over such a body costs what a hundred ordinary
+        // workspaces cost, and the laws of C06/C07 live on the number of workspaces they see)
+        let long = self.long_budget > 0 && self.scopes.len() == 2 && std::env::var_os("VH_LONG_BODIES").is_some() && self.r.chance(1, 40);
         let n = if long {
             self.long_budget -= 1;
             self.r.range(70, 130)
